@@ -34,7 +34,10 @@ pub fn classify(e: &reval::Error) -> RErr {
         E::UnknownRef(n) => RErr::UnknownRef(n.clone()),
         E::InvalidSymbol(n) => RErr::InvalidSymbol(n.clone()),
         E::UnknownUserFunction(n) => RErr::UnknownUserFunction(n.clone()),
-        E::UserFunctionError { function, error } => RErr::UserFunction(function.clone(), error.to_string()),
+        // "carrying the original error": the message, the length of the context chain and whether it still is the typed error it was
+        E::UserFunctionError { function, error } => RErr::UserFunction(function.clone(), format!("{}{}{}", error.to_string(),
+            if error.chain().count() > 1 { format!(" #chain{}", error.chain().count()) } else { String::new() },
+            if error.downcast_ref::<reval::Error>().is_some() { " #typed" } else { "" })),
         other => RErr::Other(format!("{other:?}")),
     }
 }
